@@ -32,14 +32,14 @@ Notation peekF := (@peek S (list N) fq_peek).
 Notation discard_charF := (@discard_char S (list N) fq_next fl ex).
 Notation discard_wsF := (@discard_ws S (list N) fq_next fl ex).
 Notation popF := (@pop_except_from S (list N) fq_next fq_peek fq_run1 fl ex simd).
-Notation eat_bodyF := (@eat_body S (list N) [] fq_next fq_peek (@app N) fid).
-Notation eatF := (@eat S (list N) [] fq_next fq_peek (@app N) fid fl ex).
+Notation eat_bodyF := (@eat_body S (list N) [] fq_next fq_peek (@app N) fid false).
+Notation eatF := (@eat S (list N) [] fq_next fq_peek (@app N) fid fl ex false).
 Notation do_cmdF := (@do_cmd S (list N) fq_next fl ex).
 Notation do_termF := (@do_term S (list N) fl sk).
-Notation execF := (@exec S (list N) [] fq_next fq_peek (@app N) fid fq_run1 fl ex simd sk).
+Notation execF := (@exec S (list N) [] fq_next fq_peek (@app N) fid fq_run1 fl ex simd sk false).
 Notation unconsumeF := (@unconsume S (list N) (@app N)).
 Notation cr_stepF := (@cr_step S (list N) fq_next fq_peek (@app N) fl ex ent c1).
-Notation stepF := (@step S (list N) [] fq_next fq_peek (@app N) fid fq_run1 fl ex tb simd ent c1 sk).
+Notation stepF := (@step S (list N) [] fq_next fq_peek (@app N) fid fq_run1 fl ex tb simd ent c1 sk false).
 
 (* append input behind everything unread *)
 Definition ext (x : list N) (m : M) : M := m <| mq ::= (fun q => q ++ x) |>.
@@ -145,13 +145,34 @@ Qed.
 (* after such a suspension, reading again once input is there gives what reading would have given had the
    input been there from the start *)
 Local Arguments gpc_post : simpl never.
+Lemma gpc_skip_lf (m : M) d q' :
+  ignore_lf (mc m) = true -> mq m = d :: q' ->
+  gpc_skipF LF m = (Some d, took 1 (upd (fun x => x <| ignore_lf := false |>) m <| mq := q' |>)).
+Proof.
+  destruct m as [cf q o k]. cbn. intros Hi ->. unfold gpc_skip. cbn. rewrite Hi. reflexivity.
+Qed.
+Lemma gpc_skip_noil c (m : M) : ignore_lf (mc m) = false -> gpc_skipF c m = (Some c, m).
+Proof. intros Hi. unfold gpc_skip. rewrite Hi. reflexivity. Qed.
+
 Lemma get_char_resume x (m m' : M) :
   get_charF m = (None, m') -> x <> [] -> get_charF (ext x m) = get_charF (ext x m').
 Proof.
   intros H Hx. apply get_char_none in H. destruct H as [Hr Hq ->|Hr Hi Hq ->]; [reflexivity|].
   destruct x as [|d x']; [contradiction|].
-  destruct m as [cf q o k]; cbn in Hr, Hi, Hq. subst q.
-  unfold get_char, get_preprocessed_char, gpc_skip, ext, upd, took, set. cbn. rewrite Hr, Hi. cbn. reflexivity.
+  unfold get_char at 1. rewrite ext_mc, Hr, ext_mq, Hq. cbn [app fq_next].
+  unfold get_preprocessed_char at 1.
+  rewrite (gpc_skip_lf _ d x') by (destruct m; cbn in *; auto).
+  unfold get_char. 
+  assert (E1 : reconsume (mc (ext (d :: x') (upd (fun x0 => x0 <| ignore_lf := false |>) (took 1 (m <| mq := [] |>))))) = false)
+    by (destruct m; exact Hr).
+  rewrite E1.
+  assert (E2 : mq (ext (d :: x') (upd (fun x0 => x0 <| ignore_lf := false |>) (took 1 (m <| mq := [] |>)))) = d :: x')
+    by (destruct m; reflexivity).
+  rewrite E2. cbn [fq_next]. unfold get_preprocessed_char.
+  rewrite gpc_skip_noil by (destruct m; reflexivity).
+  match goal with |- (let '(c', m2) := gpc_postF d ?A in _) = (let '(c', m2) := gpc_postF d ?B in _) =>
+    replace A with B by (destruct m; reflexivity) end.
+  reflexivity.
 Qed.
 
 (* ---------------------------------------------------------------- peek / discard *)
@@ -256,43 +277,36 @@ Qed.
 Inductive eat_result (p : str) (e : bool) (m : M) : option bool * M -> Prop :=
 | er_true : eat_cmp (negb e) p (mq (U m)) = EatTrue ->
             eat_result p e m (Some true, took (lenN p) (U m <| mq := QdropF (length p) (mq (U m)) |>))
-| er_false : eat_cmp (negb e) p (mq (U m)) = EatFalse -> eat_result p e m (Some false, U m)
-| er_eof : at_eof (mc m) = true -> eat_result p e m (Some false, U m)
-| er_none : at_eof (mc m) = false -> eat_result p e m (None, stash (U m)).
+| er_false : eat_cmp (negb e) p (mq (U m)) = EatFalse -> mq (U m) <> [] -> eat_result p e m (Some false, U m)
+| er_none : eat_result p e m (None, stash (U m)).
 
 Lemma eat_body_cases p e (m : M) : eat_result p e m (eat_bodyF p e m).
 Proof.
   unfold eat_body. fold (U m). unfold Qeat.
   destruct (fq_peek (mq (U m))) eqn:Hp.
   - destruct (eat_cmp (negb e) p (mq (U m))) eqn:Hc.
-    + destruct (at_eof (mc (U m))) eqn:Ha.
-      * apply er_eof. destruct m; exact Ha.
-      * apply er_none. destruct m; exact Ha.
-    + now apply er_false.
+    + apply er_none.
+    + apply er_false; [assumption|]. destruct (mq (U m)); [discriminate|discriminate].
     + now apply er_true.
-  - destruct (at_eof (mc (U m))) eqn:Ha.
-    + apply er_eof. destruct m; exact Ha.
-    + apply er_none. destruct m; exact Ha.
+  - apply er_none.
 Qed.
 
 Lemma eat_body_some_ext p e x (m m' : M) b :
-  at_eof (mc m) = false -> eat_bodyF p e m = (Some b, m') -> eat_bodyF p e (ext x m) = (Some b, ext x m').
+  eat_bodyF p e m = (Some b, m') -> eat_bodyF p e (ext x m) = (Some b, ext x m').
 Proof.
-  intros Ha H. unfold eat_body in *. fold (U m) in H. fold (U (ext x m)). rewrite U_ext, ext_mq.
-  unfold Qeat in *. rewrite ext_mc.
-  assert (Ha' : at_eof (mc (U m)) = false) by (destruct m; exact Ha).
-  destruct (mq (U m)) as [|d q'] eqn:Hq; cbn [fq_peek] in H.
-  - rewrite Ha' in H. discriminate.
-  - cbn [fq_peek app]. change (d :: q' ++ x) with ((d :: q') ++ x).
-    destruct (eat_cmp (negb e) p (d :: q')) eqn:Hc.
-    + rewrite Ha' in H. discriminate.
-    + rewrite (eat_cmp_false_ext _ _ _ x Hc). inversion H; reflexivity.
-    + rewrite (eat_cmp_true_ext _ _ _ x Hc). inversion H; subst.
-      rewrite qdrop_ext by (apply eat_cmp_true_len in Hc; exact Hc).
-      destruct (U m); reflexivity.
+  intros H. unfold eat_body in *. fold (U m) in H. fold (U (ext x m)). rewrite U_ext, ext_mq.
+  unfold Qeat in *.
+  destruct (mq (U m)) as [|d q'] eqn:Hq; cbn [fq_peek] in H; [discriminate|].
+  cbn [fq_peek app]. change (d :: q' ++ x) with ((d :: q') ++ x).
+  destruct (eat_cmp (negb e) p (d :: q')) eqn:Hc.
+  - discriminate.
+  - rewrite (eat_cmp_false_ext _ _ _ x Hc). inversion H; reflexivity.
+  - rewrite (eat_cmp_true_ext _ _ _ x Hc). inversion H; subst.
+    rewrite qdrop_ext by (apply eat_cmp_true_len in Hc; exact Hc).
+    destruct (U m); reflexivity.
 Qed.
 
-Lemma eat_body_none p e (m m' : M) : eat_bodyF p e m = (None, m') -> m' = stash (U m) /\ at_eof (mc m) = false.
+Lemma eat_body_none p e (m m' : M) : eat_bodyF p e m = (None, m') -> m' = stash (U m).
 Proof.
   intros H. pose proof (eat_body_cases p e m) as C. rewrite H in C. inversion C; subst; auto.
 Qed.
@@ -300,8 +314,756 @@ Qed.
 Lemma eat_body_resume p e x (m m' : M) :
   eat_bodyF p e m = (None, m') -> eat_bodyF p e (ext x m) = eat_bodyF p e (ext x m').
 Proof.
-  intros H. apply eat_body_none in H. destruct H as [-> _].
+  intros H. apply eat_body_none in H. subst m'.
   rewrite (eat_body_U p e (ext x m)), (eat_body_U p e (ext x (stash (U m)))).
   rewrite !U_ext, U_stash by apply U_temp. reflexivity.
+Qed.
+(* eat() proper: the pending-LF clause, then eat_body *)
+Definition skip_lf (m : M) (c : N) : M :=
+  upd (fun x => x <| ignore_lf := false |>)
+      (if c =? LF then
+         (if f_html fl then discard_charF m
+          else match fq_next (mq m) with Some (_, q') => took 1 (m <| mq := q' |>) | None => m end)
+       else m).
+
+Lemma eat_unfold p e (m : M) :
+  eatF p e m =
+  if ignore_lf (mc m) then
+    match peekF m with
+    | None => (None, m)
+    | Some c => eat_bodyF p e (skip_lf m c)
+    end
+  else eat_bodyF p e m.
+Proof. reflexivity. Qed.
+
+Definition rec_ok (m : M) : Prop := f_html fl = true \/ reconsume (mc m) = false.
+
+Lemma skip_lf_ext x (m : M) c :
+  peekF m = Some c -> rec_ok m -> skip_lf (ext x m) c = ext x (skip_lf m c).
+Proof.
+  intros Hp Hr. unfold skip_lf. rewrite <- upd_ext. f_equal.
+  destruct (c =? LF) eqn:E; [|reflexivity].
+  destruct (f_html fl) eqn:Hh.
+  - apply (discard_char_ext x m c Hp). left. exact Hh.
+  - destruct Hr as [Hr|Hr]; [congruence|].
+    destruct m as [cf q o k]. unfold peek in Hp. cbn in Hp, Hr. rewrite Hr in Hp.
+    destruct q as [|d q']; [discriminate|]. reflexivity.
+Qed.
+
+Lemma eat_some_ext p e x (m m' : M) b :
+  rec_ok m ->
+  eatF p e m = (Some b, m') -> eatF p e (ext x m) = (Some b, ext x m').
+Proof.
+  intros Hr. rewrite !eat_unfold, ext_mc.
+  destruct (ignore_lf (mc m)).
+  - destruct (peekF m) as [c|] eqn:Hp.
+    + rewrite (peek_some x m c Hp). rewrite skip_lf_ext; [|assumption|assumption].
+      apply eat_body_some_ext.
+    + discriminate.
+  - apply eat_body_some_ext.
+Qed.
+
+(* a suspended eat() resumes as if the input had been there from the start *)
+Lemma eat_resume p e x (m m' : M) :
+  rec_ok m ->
+  eatF p e m = (None, m') -> eatF p e (ext x m) = eatF p e (ext x m').
+Proof.
+  intros Hr H. rewrite eat_unfold in H.
+  destruct (ignore_lf (mc m)) eqn:Hi.
+  - destruct (peekF m) as [c|] eqn:Hp.
+    + rewrite (eat_unfold p e (ext x m)), ext_mc, Hi, (peek_some x m c Hp).
+      rewrite skip_lf_ext; [|assumption|assumption].
+      rewrite (eat_body_resume p e x _ _ H).
+      apply eat_body_none in H. subst m'.
+      rewrite eat_unfold, ext_mc.
+      assert (E : ignore_lf (mc (stash (U (skip_lf m c)))) = false).
+      { unfold skip_lf. destruct (if c =? LF then _ else m); reflexivity. }
+      rewrite E. reflexivity.
+    + inversion H; subst. reflexivity.
+  - rewrite (eat_unfold p e (ext x m)), ext_mc, Hi.
+    rewrite (eat_body_resume p e x _ _ H).
+    apply eat_body_none in H. subst m'.
+    rewrite eat_unfold, ext_mc.
+    assert (E : ignore_lf (mc (stash (U m))) = false) by (destruct m; cbn in *; exact Hi).
+    rewrite E. reflexivity.
+Qed.
+
+(* ---------------------------------------------------------------- commands and terminators never look at the queue *)
+Notation finish_attributeF := (@finish_attribute S (list N) fl).
+Notation emit_current_tagF := (@emit_current_tag S (list N) fl sk).
+
+Lemma finish_attribute_ext x (m : M) : finish_attributeF (ext x m) = ext x (finish_attributeF m).
+Proof.
+  unfold finish_attribute. rewrite !ext_mc.
+  destruct (attr_name (mc m)) as [|a0 an]; [reflexivity|].
+  destruct (f_html fl).
+  - destruct (existsb _ (tag_attrs (mc m))); destruct m; reflexivity.
+  - destruct (existsb _ (tag_attrs (mc m))); [destruct m; reflexivity|].
+    destruct (qname_split (a0 :: an)) as [p l]. destruct m; reflexivity.
+Qed.
+
+Lemma discard_tag_ext x (m : M) : @discard_tag S (list N) fl (ext x m) = ext x (@discard_tag S (list N) fl m).
+Proof. unfold discard_tag. destruct (f_html fl); destruct m; reflexivity. Qed.
+
+Lemma emit_char_ext c x (m : M) : @emit_char S (list N) fl c (ext x m) = ext x (@emit_char S (list N) fl c m).
+Proof. unfold emit_char. destruct (f_html fl); [destruct (c =? 0)|]; destruct m; reflexivity. Qed.
+
+Definition is_discard (k : cmd) : bool := match k with DiscardChar | DiscardWs => true | _ => false end.
+
+Lemma do_cmd_ext k c run x (m : M) :
+  is_discard k = false -> do_cmdF k c run (ext x m) = ext x (do_cmdF k c run m).
+Proof.
+  intros Hk. destruct k; try discriminate; cbn [do_cmd];
+    rewrite ?finish_attribute_ext, ?discard_tag_ext, ?emit_char_ext, ?ext_mc;
+    try (destruct m; reflexivity).
+  - destruct k; destruct m; reflexivity.
+  - destruct k; destruct m; reflexivity.
+Qed.
+
+Lemma emit_current_tag_ext x (m : M) :
+  emit_current_tagF (ext x m) = (ext x (fst (emit_current_tagF m)), snd (emit_current_tagF m)).
+Proof.
+  unfold emit_current_tag. rewrite finish_attribute_ext. rewrite !ext_mc.
+  set (m1 := finish_attributeF m).
+  destruct (f_html fl).
+  - destruct (tag_kind (mc m1)) eqn:Ek;
+      destruct (lookup_resp (tag_name (mc m1)) (sk_resp sk)) as [[]|];
+      destruct (tag_attrs (mc m1)); destruct (tag_self (mc m1)); destruct m1; reflexivity.
+  - destruct (tag_kind (mc m1)) eqn:Ek;
+      destruct (lookup_resp (tag_name (mc m1)) (sk_resp sk)) as [[]|];
+      destruct (tag_attrs (mc m1)); destruct m1; reflexivity.
+Qed.
+
+Lemma do_term_ext t x (m : M) : do_termF t (ext x m) = (ext x (fst (do_termF t m)), snd (do_termF t m)).
+Proof.
+  destruct t; cbn [do_term]; rewrite ?upd_ext, ?emit_current_tag_ext; try (destruct m; reflexivity).
+  - destruct k; cbn [do_term]; rewrite ?upd_ext, ?emit_current_tag_ext; reflexivity.
+Qed.
+(* ---------------------------------------------------------------- shapes of arm bodies *)
+Fixpoint no_eof (b : body S) : bool :=
+  match b with
+  | BRead _ k => no_eof k
+  | BPop _ _ r c => no_eof r && no_eof c
+  | BEat _ _ y n | BIf _ y n => no_eof y && no_eof n
+  | BCmd _ k => no_eof k
+  | BEnd Eof => false
+  | BEnd _ => true
+  end.
+(* no read, no discard *)
+Fixpoint plain (b : body S) : bool :=
+  match b with
+  | BRead _ _ | BPop _ _ _ _ | BEat _ _ _ _ => false
+  | BIf _ y n => plain y && plain n
+  | BCmd k r => negb (is_discard k) && plain r
+  | BEnd _ => true
+  end.
+(* what may follow a peek: tests, then at most one discard (first), then a plain body *)
+Fixpoint ptail (b : body S) : bool :=
+  match b with
+  | BIf _ y n => ptail y && ptail n
+  | BCmd k r => plain r
+  | BEnd _ => true
+  | _ => false
+  end.
+(* what may follow a look-ahead that said "no": more look-aheads, tests, one get_char, plain bodies *)
+Fixpoint chain (b : body S) : bool :=
+  match b with
+  | BEat _ _ y n => plain y && chain n
+  | BIf _ y n => chain y && chain n
+  | BRead RGet k => plain k
+  | BRead RPeek _ | BPop _ _ _ _ => false
+  | BCmd k r => negb (is_discard k) && plain r
+  | BEnd _ => true
+  end.
+Definition shape (b : body S) : bool :=
+  match b with
+  | BRead RGet k => plain k
+  | BRead RPeek k => f_html fl && ptail k
+  | BPop _ _ krun kchar => plain krun && plain kchar
+  | BEat _ _ y n => plain y && chain n
+  | _ => plain b
+  end.
+
+Lemma ceval_cond_ext k c x (m : M) : @ceval_cond S (list N) sk k c (ext x m) = @ceval_cond S (list N) sk k c m.
+Proof. destruct k; destruct m; reflexivity. Qed.
+
+Lemma exec_plain_ext b : plain b = true -> forall c run x (m : M),
+  execF b c run (ext x m) = (ext x (fst (execF b c run m)), snd (execF b c run m)).
+Proof.
+  induction b as [r k IH|s f r IHr cc IHc|p e y IHy n IHn|k y IHy n IHn|k r IH|t]; intros Hp c run x m; cbn in Hp;
+    try discriminate.
+  - apply andb_prop in Hp. destruct Hp as [Hy Hn]. cbn [exec]. rewrite ceval_cond_ext.
+    destruct (ceval_cond sk k c m); auto.
+  - apply andb_prop in Hp. destruct Hp as [Hk Hr]. cbn [exec].
+    rewrite do_cmd_ext by (destruct (is_discard k); [discriminate|reflexivity]). apply IH. exact Hr.
+  - cbn [exec]. apply do_term_ext.
+Qed.
+
+Lemma exec_plain_nosusp b : plain b = true -> no_eof b = true -> forall c run (m : M),
+  snd (execF b c run m) <> SSuspend.
+Proof.
+  induction b as [r k IH|s f r IHr cc IHc|p e y IHy n IHn|k y IHy n IHn|k r IH|t]; intros Hp He c run m; cbn in Hp, He;
+    try discriminate.
+  - apply andb_prop in Hp. destruct Hp. apply andb_prop in He. destruct He. cbn [exec].
+    destruct (ceval_cond sk k c m); auto.
+  - apply andb_prop in Hp. destruct Hp. cbn [exec]. auto.
+  - cbn [exec]. destruct t; cbn [do_term]; try discriminate.
+    + unfold emit_current_tag. destruct (f_html fl);
+        repeat match goal with |- context [match ?b with _ => _ end] => destruct b end; cbn; discriminate.
+    + destruct k; unfold emit_current_tag; destruct (f_html fl);
+        repeat match goal with |- context [match ?b with _ => _ end] => destruct b end; cbn; discriminate.
+Qed.
+
+Lemma exec_ptail_ext b : ptail b = true -> f_html fl = true -> forall c run x (m : M),
+  peekF m = Some c ->
+  execF b c run (ext x m) = (ext x (fst (execF b c run m)), snd (execF b c run m)).
+Proof.
+  induction b as [r k IH|s f r IHr cc IHc|p e y IHy n IHn|k y IHy n IHn|k r IH|t]; intros Hp Hh c run x m Hpk; cbn in Hp;
+    try discriminate.
+  - apply andb_prop in Hp. destruct Hp as [Hy Hn]. cbn [exec]. rewrite ceval_cond_ext.
+    destruct (ceval_cond sk k c m); auto.
+  - cbn [exec]. destruct (is_discard k) eqn:Hd.
+    + assert (E : do_cmdF k c run (ext x m) = ext x (do_cmdF k c run m)).
+      { destruct k; try discriminate; cbn [do_cmd].
+        - apply (discard_char_ext x m c Hpk). left. exact Hh.
+        - apply (discard_ws_ext x m c c Hpk Hh). }
+      rewrite E. apply exec_plain_ext. exact Hp.
+    + rewrite do_cmd_ext by exact Hd. apply exec_plain_ext. exact Hp.
+  - cbn [exec]. apply do_term_ext.
+Qed.
+Lemma exec_ptail_nosusp b : ptail b = true -> no_eof b = true -> forall c run (m : M),
+  snd (execF b c run m) <> SSuspend.
+Proof.
+  induction b as [r k IH|s f r IHr cc IHc|p e y IHy n IHn|k y IHy n IHn|k r IH|t]; intros Hp He c run m; cbn in Hp, He;
+    try discriminate.
+  - apply andb_prop in Hp. destruct Hp. apply andb_prop in He. destruct He. cbn [exec].
+    destruct (ceval_cond sk k c m); auto.
+  - cbn [exec]. apply exec_plain_nosusp; assumption.
+  - apply (exec_plain_nosusp (BEnd t)); [reflexivity|exact He].
+Qed.
+
+(* ---------------------------------------------------------------- after a look-ahead said "no" *)
+Definition settled (n : M) : Prop :=
+  temp_buf (mc n) = [] /\ ignore_lf (mc n) = false /\ (reconsume (mc n) = true \/ mq n <> []).
+
+Lemma U_ignore_lf (m : M) : ignore_lf (mc (U m)) = ignore_lf (mc m).
+Proof. destruct m; reflexivity. Qed.
+
+Lemma skip_lf_ignore_lf (m : M) c : ignore_lf (mc (skip_lf m c)) = false.
+Proof. unfold skip_lf. destruct (if c =? LF then _ else m); reflexivity. Qed.
+
+Lemma eat_false_settled p e (m n : M) :
+  eatF p e m = (Some false, n) -> settled n /\ eat_cmp (negb e) p (mq n) = EatFalse.
+Proof.
+  intros H. rewrite eat_unfold in H.
+  assert (G : forall m0, ignore_lf (mc m0) = false ->
+                         eat_bodyF p e m0 = (Some false, n) -> settled n /\ eat_cmp (negb e) p (mq n) = EatFalse).
+  { intros m0 Hi0 H0. pose proof (eat_body_cases p e m0) as C. rewrite H0 in C. inversion C; subst.
+    unfold settled. rewrite U_temp, U_ignore_lf. auto. }
+  destruct (ignore_lf (mc m)) eqn:Hi.
+  - destruct (peekF m) as [c|]; [|discriminate]. eapply G; [apply skip_lf_ignore_lf|eassumption].
+  - eapply G; eassumption.
+Qed.
+
+Lemma settled_eat p e (n : M) : settled n -> eatF p e n = eat_bodyF p e n /\ U n = n.
+Proof.
+  intros [Ht [Hi _]]. rewrite eat_unfold, Hi. split; [reflexivity|]. apply U_idem. exact Ht.
+Qed.
+Lemma settled_eat_ext p e x (n : M) : settled n -> eatF p e (ext x n) = eat_bodyF p e (ext x n).
+Proof. intros [_ [Hi _]]. rewrite eat_unfold, ext_mc, Hi. reflexivity. Qed.
+
+Lemma settled_get_char (n : M) : settled n -> exists c n', get_charF n = (Some c, n').
+Proof.
+  intros [_ [Hi Hq]]. unfold get_char. destruct (reconsume (mc n)) eqn:Hr; [eauto|].
+  destruct Hq as [Hq|Hq]; [discriminate|].
+  destruct (mq n) as [|d q'] eqn:E; [contradiction|]. cbn [fq_next].
+  unfold get_preprocessed_char. rewrite gpc_skip_noil by (destruct n; cbn in *; exact Hi).
+  destruct (gpc_postF d _) as [c' m2]. eauto.
+Qed.
+
+(* (A) a chain can only suspend in an undecided look-ahead, and then it has just stashed the queue *)
+Lemma chain_susp b : chain b = true -> no_eof b = true -> forall c run (n m' : M),
+  settled n -> execF b c run n = (m', SSuspend) -> m' = stash n.
+Proof.
+  induction b as [r k IH|s f r IHr cc IHc|p e y IHy nb IHn|k y IHy nb IHn|k r IH|t]; intros Hc He c run n m' Hs H;
+    cbn in Hc, He; try discriminate.
+  - (* BRead *) destruct r; [|discriminate]. cbn [exec] in H.
+    destruct (settled_get_char n Hs) as [c' [n' E]]. rewrite E in H.
+    exfalso. apply (exec_plain_nosusp k Hc He c' run n'). rewrite H. reflexivity.
+  - (* BEat *) apply andb_prop in Hc. destruct Hc as [Hy Hn]. apply andb_prop in He. destruct He as [Ey En].
+    cbn [exec] in H. destruct (settled_eat p e n Hs) as [E1 E2]. rewrite E1 in H.
+    pose proof (eat_body_cases p e n) as C.
+    destruct (eat_bodyF p e n) as [[[|]|] m1]; inversion C; subst; rewrite ?E2 in *.
+    + exfalso. match type of H with execF y c run ?mm = _ => apply (exec_plain_nosusp y Hy Ey c run mm) end.
+      rewrite H. reflexivity.
+    + eapply IHn; eassumption.
+    + inversion H; subst. reflexivity.
+  - (* BIf *) apply andb_prop in Hc. destruct Hc. apply andb_prop in He. destruct He. cbn [exec] in H.
+    destruct (ceval_cond sk k c n); eauto.
+  - (* BCmd *) exfalso. apply (exec_plain_nosusp (BCmd k r) Hc He c run n). rewrite H. reflexivity.
+  - exfalso. apply (exec_plain_nosusp (BEnd t) eq_refl He c run n). rewrite H. reflexivity.
+Qed.
+
+(* (B) a chain that does not suspend is unaffected by input appended behind the queue *)
+Lemma chain_nosusp b : chain b = true -> forall c run x (n m' : M) r,
+  settled n -> execF b c run n = (m', r) -> r <> SSuspend -> execF b c run (ext x n) = (ext x m', r).
+Proof.
+  induction b as [rk k IH|s f rr IHr cc IHc|p e y IHy nb IHn|k y IHy nb IHn|k rr IH|t]; intros Hc c run x n m' r Hs H Hr;
+    cbn in Hc; try discriminate.
+  - destruct rk; [|discriminate]. cbn [exec] in *.
+    destruct (get_charF n) as [[c'|] n'] eqn:E.
+    + rewrite (get_char_some x n n' c' E). rewrite exec_plain_ext by exact Hc. rewrite H. reflexivity.
+    + inversion H; subst. contradiction.
+  - apply andb_prop in Hc. destruct Hc as [Hy Hn]. cbn [exec] in *.
+    destruct (settled_eat p e n Hs) as [E1 _]. rewrite (settled_eat_ext p e x n Hs).
+    destruct (eatF p e n) as [[[|]|] m1] eqn:E.
+    + symmetry in E1. rewrite (eat_body_some_ext p e x n m1 true E1). rewrite exec_plain_ext by exact Hy.
+      rewrite H. reflexivity.
+    + pose proof (proj1 (eat_false_settled p e n m1 E)) as Hs1.
+      symmetry in E1. rewrite (eat_body_some_ext p e x n m1 false E1). eapply IHn; eassumption.
+    + inversion H; subst. contradiction.
+  - apply andb_prop in Hc. destruct Hc. cbn [exec] in *. rewrite ceval_cond_ext.
+    destruct (ceval_cond sk k c n); eauto.
+  - rewrite (exec_plain_ext (BCmd k rr) Hc). rewrite H. reflexivity.
+  - rewrite (exec_plain_ext (BEnd t) eq_refl). rewrite H. reflexivity.
+Qed.
+(* ---------------------------------------------------------------- one arm body, top level *)
+Hypothesis Hex : ex = true.        (* exact_errors: every bulk read takes the character-at-a-time path *)
+
+Lemma pop_slow set sm (m : M) :
+  popF set sm m = match get_charF m with (None, m') => (PopNone, m') | (Some c, m') => (PopChar c, m') end.
+Proof. unfold pop_except_from. rewrite Hex. reflexivity. Qed.
+
+Definition is_eat (b : body S) : bool := match b with BEat _ _ _ _ => true | _ => false end.
+
+(* L2: an arm that does not suspend is unaffected by input appended behind the queue *)
+Theorem exec_nosusp b : shape b = true -> forall c run x (m m' : M) r,
+  (is_eat b = true -> rec_ok m) ->
+  execF b c run m = (m', r) -> r <> SSuspend -> execF b c run (ext x m) = (ext x m', r).
+Proof.
+  intros Hs c run x m m' r Hrc H Hr.
+  destruct b as [rk k|set sm krun kchar|p e y nb|k y nb|k rr|t]; cbn [shape] in Hs.
+  - destruct rk.
+    + cbn [exec] in *. destruct (get_charF m) as [[c'|] n'] eqn:E.
+      * rewrite (get_char_some x m n' c' E). rewrite exec_plain_ext by exact Hs. rewrite H. reflexivity.
+      * exfalso; injection H as _ Hrr; apply Hr; symmetry; exact Hrr.
+    + apply andb_prop in Hs. destruct Hs as [Hh Hp]. cbn [exec] in *.
+      destruct (peekF m) as [c'|] eqn:E.
+      * rewrite (peek_some x m c' E). rewrite (exec_ptail_ext k Hp Hh c' run x m E). rewrite H. reflexivity.
+      * exfalso; injection H as _ Hrr; apply Hr; symmetry; exact Hrr.
+  - apply andb_prop in Hs. destruct Hs as [H1 H2]. cbn [exec] in *. rewrite pop_slow in *.
+    destruct (get_charF m) as [[c'|] n'] eqn:E.
+    + rewrite (get_char_some x m n' c' E). rewrite exec_plain_ext by exact H2. rewrite H. reflexivity.
+    + exfalso; injection H as _ Hrr; apply Hr; symmetry; exact Hrr.
+  - apply andb_prop in Hs. destruct Hs as [Hy Hn]. specialize (Hrc eq_refl). cbn [exec] in *.
+    destruct (eatF p e m) as [[[|]|] m1] eqn:E.
+    + rewrite (eat_some_ext p e x m m1 true Hrc E). rewrite exec_plain_ext by exact Hy. rewrite H. reflexivity.
+    + rewrite (eat_some_ext p e x m m1 false Hrc E).
+      eapply chain_nosusp; try eassumption. exact (proj1 (eat_false_settled p e m m1 E)).
+    + exfalso; injection H as _ Hrr; apply Hr; symmetry; exact Hrr.
+  - rewrite (exec_plain_ext (BIf k y nb) Hs). rewrite H. reflexivity.
+  - rewrite (exec_plain_ext (BCmd k rr) Hs). rewrite H. reflexivity.
+  - rewrite (exec_plain_ext (BEnd t) Hs). rewrite H. reflexivity.
+Qed.
+
+(* L3: an arm that suspends for lack of input has only re-arranged look-ahead; running it again once more input
+   is there gives exactly what running it would have given had the input been there from the start *)
+Theorem exec_susp b : shape b = true -> no_eof b = true -> forall c run x (m m' : M),
+  (is_eat b = true -> rec_ok m) ->
+  execF b c run m = (m', SSuspend) -> x <> [] -> execF b c run (ext x m) = execF b c run (ext x m').
+Proof.
+  intros Hs He c run x m m' Hrc H Hx.
+  destruct b as [rk k|set sm krun kchar|p e y nb|k y nb|k rr|t]; cbn [shape] in Hs; cbn [no_eof] in He.
+  - destruct rk.
+    + cbn [exec] in *. destruct (get_charF m) as [[c'|] n'] eqn:E.
+      * exfalso. apply (exec_plain_nosusp k Hs He c' run n'). rewrite H. reflexivity.
+      * injection H as Hm; subst m'. rewrite (get_char_resume x m n' E Hx). reflexivity.
+    + apply andb_prop in Hs. destruct Hs as [Hh Hp]. cbn [exec] in *.
+      destruct (peekF m) as [c'|] eqn:E.
+      * exfalso. apply (exec_ptail_nosusp k Hp He c' run m). rewrite H. reflexivity.
+      * injection H as Hm; subst m'. reflexivity.
+  - apply andb_prop in Hs. destruct Hs as [H1 H2]. apply andb_prop in He. destruct He as [E1 E2].
+    cbn [exec] in *. rewrite !pop_slow. rewrite pop_slow in H.
+    destruct (get_charF m) as [[c'|] n'] eqn:E.
+    + exfalso. apply (exec_plain_nosusp kchar H2 E2 c' run n'). rewrite H. reflexivity.
+    + injection H as Hm; subst m'. rewrite (get_char_resume x m n' E Hx). reflexivity.
+  - apply andb_prop in Hs. destruct Hs as [Hy Hn]. apply andb_prop in He. destruct He as [Ey En].
+    specialize (Hrc eq_refl). cbn [exec] in *.
+    destruct (eatF p e m) as [[[|]|] m1] eqn:E.
+    + exfalso. apply (exec_plain_nosusp y Hy Ey c run m1). rewrite H. reflexivity.
+    + destruct (eat_false_settled p e m m1 E) as [Hst Hcmp].
+      assert (Em : m' = stash m1) by (eapply chain_susp; eassumption). subst m'.
+      rewrite (eat_some_ext p e x m m1 false Hrc E).
+      (* the resumed run: the stash is pushed back, the first look-ahead says "no" again *)
+      destruct Hst as [Ht [Hi Hq]].
+      assert (Ee : eatF p e (ext x (stash m1)) = (Some false, ext x m1)).
+      { rewrite eat_unfold, ext_mc.
+        assert (Ei : ignore_lf (mc (stash m1)) = false) by (destruct m1; exact Hi). rewrite Ei.
+        rewrite eat_body_U, U_ext, U_stash by exact Ht.
+        unfold eat_body. fold (U (ext x m1)). rewrite U_ext, (U_idem m1 Ht), ext_mq. unfold Qeat.
+        destruct (mq m1) as [|d q'] eqn:Eq; [destruct p; discriminate|]. cbn [app fq_peek].
+        change (d :: q' ++ x) with ((d :: q') ++ x). rewrite (eat_cmp_false_ext _ _ _ x Hcmp). reflexivity. }
+      rewrite Ee. reflexivity.
+    + injection H as Hm; subst m'. rewrite (eat_resume p e x m m1 Hrc E). reflexivity.
+  - exfalso. apply (exec_plain_nosusp (BIf k y nb) Hs He c run m). rewrite H. reflexivity.
+  - exfalso. apply (exec_plain_nosusp (BCmd k rr) Hs He c run m). rewrite H. reflexivity.
+  - exfalso. apply (exec_plain_nosusp (BEnd t) Hs He c run m). rewrite H. reflexivity.
+Qed.
+(* ---------------------------------------------------------------- the character-reference sub-tokenizer *)
+Notation finish_numericF := (@finish_numeric S (list N) c1).
+Notation unconsume_numericF := (@unconsume_numeric S (list N) (@app N)).
+Notation finish_namedF := (@finish_named S (list N) (@app N) fl).
+Notation discard_rawF := (@discard_raw S (list N) fq_next fl ex).
+Notation cr_readF := (@cr_read S (list N) fq_next fq_peek fl ex).
+Notation process_char_refF := (@process_char_ref S (list N) fl).
+
+Lemma finish_numeric_ext cr x (m : M) :
+  finish_numericF cr (ext x m) = (fst (finish_numericF cr m), ext x (snd (finish_numericF cr m))).
+Proof.
+  unfold finish_numeric.
+  match goal with |- context [let '(c, e) := ?X in _] => destruct X as [c0 e0] end.
+  destruct e0; rewrite ?err_ext; reflexivity.
+Qed.
+
+Lemma unconsume_numeric_ext cr x (m : M) :
+  unconsume_numericF cr (ext x m) = (fst (unconsume_numericF cr m), ext x (snd (unconsume_numericF cr m))).
+Proof. unfold unconsume_numeric. rewrite unconsume_ext, err_ext. reflexivity. Qed.
+
+Lemma finish_named_ext cr ec x (m : M) :
+  finish_namedF cr ec (ext x m) = (fst (finish_namedF cr ec m), ext x (snd (finish_namedF cr ec m))).
+Proof.
+  unfold finish_named.
+  destruct (cr_match cr) as [[a b]|].
+  - match goal with |- context [let '(unc, e) := ?X in _] => destruct X as [unc e0] end.
+    destruct unc; destruct e0; destruct (f_html fl); rewrite ?unconsume_ext, ?err_ext, ?upd_ext; reflexivity.
+  - destruct ec as [c|]; [|rewrite unconsume_ext; reflexivity].
+    destruct (is_alnum c); [reflexivity|].
+    destruct ((c =? 59) && Nat.ltb 1 (length (cr_buf cr))); rewrite unconsume_ext, ?err_ext; reflexivity.
+Qed.
+
+Lemma discard_raw_ext x (m : M) c : peekF m = Some c -> discard_rawF (ext x m) = ext x (discard_rawF m).
+Proof.
+  intros Hp. unfold discard_raw. destruct (f_html fl) eqn:Hh.
+  - apply (discard_char_ext x m c Hp). left. exact Hh.
+  - rewrite ext_mc. destruct m as [cf q o k]. unfold peek in Hp. cbn in *.
+    destruct (reconsume cf); [reflexivity|]. destruct q; [discriminate|reflexivity].
+Qed.
+
+Lemma to_digit_not_lf base c n : to_digit base c = Some n -> c <> LF.
+Proof.
+  intros H ->. unfold to_digit in H. cbn in H. destruct (base =? 16); cbn in H; discriminate.
+Qed.
+
+Lemma process_char_ref_ext chars x (m : M) :
+  process_char_refF chars (ext x m) = (ext x (fst (process_char_refF chars m)), snd (process_char_refF chars m)).
+Proof.
+  unfold process_char_ref.
+  generalize (match chars with [] => [38] | _ :: _ => chars end). clear chars. intros chars.
+  generalize false. revert m. induction chars as [|c chars IH]; intros m b; [reflexivity|].
+  cbn [fold_left]. rewrite ext_mc.
+  destruct (f_charref_emit fl (st (mc m))) as [[|]|]; rewrite ?upd_ext, ?emit_char_ext; apply IH.
+Qed.
+
+Lemma cr_step_stuck cr (m m' : M) : cr_stepF cr m = (CrStuck, m') -> m' = m.
+Proof.
+  unfold cr_step, cr_read. intros H.
+  destruct (cr_st cr); destruct (peekF m) as [c|] eqn:Hp;
+    try (injection H as <-; reflexivity).
+  - destruct (f_html fl).
+    + destruct (is_alnum c); [discriminate|]. destruct (c =? 35); discriminate.
+    + destruct (memb c _); [discriminate|]. destruct (match cr_addnl cr with Some a => a =? c | None => false end); [discriminate|].
+      destruct (c =? 35); discriminate.
+  - destruct ((c =? 120) || (c =? 88)); discriminate.
+  - destruct (to_digit base c); [discriminate|]. destruct (negb (cr_seen cr)); [|discriminate].
+    unfold unconsume_numeric in H. discriminate.
+  - destruct (finish_numericF cr _). discriminate.
+  - destruct (ent (cr_buf cr ++ [c])) as [[a b]|]; [discriminate|].
+    unfold finish_named in H. destruct (cr_match _) as [[a b]|].
+    + match type of H with context [let '(unc, e) := ?X in _] => destruct X as [unc e0] end.
+      destruct unc; discriminate.
+    + cbn in H. destruct (is_alnum c); [discriminate|]. discriminate.
+  - destruct (is_alnum c); discriminate.
+Qed.
+
+Lemma cr_step_nostuck cr x (m m' : M) res :
+  cr_stepF cr m = (res, m') -> res <> CrStuck -> cr_stepF cr (ext x m) = (res, ext x m').
+Proof.
+  unfold cr_step, cr_read. intros H Hn.
+  destruct (cr_st cr); destruct (peekF m) as [c|] eqn:Hp;
+    try (exfalso; injection H as Hr _; apply Hn; symmetry; exact Hr);
+    rewrite (peek_some x m c Hp).
+  - destruct (f_html fl) eqn:Hh.
+    + destruct (is_alnum c); [injection H as <- <-; reflexivity|].
+      destruct (c =? 35) eqn:E35; [|injection H as <- <-; reflexivity].
+      rewrite (discard_char_ext x m c Hp (or_introl Hh)). injection H as <- <-. reflexivity.
+    + destruct (memb c _); [injection H as <- <-; reflexivity|].
+      destruct (match cr_addnl cr with Some a => a =? c | None => false end); [injection H as <- <-; reflexivity|].
+      destruct (c =? 35) eqn:E35; [|injection H as <- <-; reflexivity].
+      assert (Hc : c <> LF) by (apply N.eqb_eq in E35; subst; discriminate).
+      rewrite (discard_char_ext x m c Hp (or_intror Hc)). injection H as <- <-. reflexivity.
+  - destruct ((c =? 120) || (c =? 88)) eqn:Ex; [|injection H as <- <-; reflexivity].
+    assert (Hc : c <> LF).
+    { intros ->. cbn in Ex. discriminate. }
+    rewrite (discard_char_ext x m c Hp (or_intror Hc)). injection H as <- <-. reflexivity.
+  - destruct (to_digit base c) as [n|] eqn:Ed.
+    + rewrite (discard_char_ext x m c Hp (or_intror (to_digit_not_lf _ _ _ Ed))). injection H as <- <-. reflexivity.
+    + destruct (negb (cr_seen cr)); [|injection H as <- <-; reflexivity].
+      rewrite unconsume_numeric_ext. rewrite H. reflexivity.
+  - assert (E : (if c =? 59 then discard_charF (ext x m) else err (ext x m)) =
+                ext x (if c =? 59 then discard_charF m else err m)).
+    { destruct (c =? 59) eqn:E59; [|apply err_ext].
+      apply (discard_char_ext x m c Hp). right. apply N.eqb_eq in E59. subst. discriminate. }
+    rewrite E, finish_numeric_ext. destruct (finish_numericF cr _) as [chars m2]. injection H as <- <-. reflexivity.
+  - rewrite (discard_raw_ext x m c Hp).
+    destruct (ent (cr_buf cr ++ [c])) as [[a b]|]; [injection H as <- <-; reflexivity|].
+    rewrite finish_named_ext. rewrite H. reflexivity.
+  - rewrite (discard_raw_ext x m c Hp).
+    destruct (is_alnum c); [injection H as <- <-; reflexivity|].
+    rewrite unconsume_ext. destruct (c =? 59); rewrite ?err_ext; injection H as <- <-; reflexivity.
+Qed.
+(* ---------------------------------------------------------------- one step *)
+Hypothesis Hshape : forall s, shape (t_step tb s) = true.
+Hypothesis Hnoeof : forall s, no_eof (t_step tb s) = true.
+
+(* what the look-ahead lemmas need from the machine (always true for the html flavour) *)
+Definition step_ok (m : M) : Prop :=
+  cref (mc m) = None -> is_eat (t_step tb (st (mc m))) = true -> rec_ok m.
+Lemma step_ok_ext x (m : M) : step_ok (ext x m) <-> step_ok m.
+Proof. unfold step_ok, rec_ok. rewrite ext_mc. tauto. Qed.
+Lemma step_ok_html (m : M) : f_html fl = true -> step_ok m.
+Proof. intros H _ _. left. exact H. Qed.
+
+Theorem step_nosusp x (m m' : M) r :
+  step_ok m -> stepF m = (m', r) -> r <> SSuspend -> stepF (ext x m) = (ext x m', r).
+Proof.
+  unfold step. rewrite !ext_mc. intros Hok H Hr.
+  destruct (cref (mc m)) as [cr|] eqn:Ec.
+  - destruct (cr_stepF cr m) as [res m1] eqn:E.
+    destruct res as [|cr'|chars].
+    + exfalso. injection H as _ Hrr. apply Hr. symmetry. exact Hrr.
+    + rewrite (cr_step_nostuck cr x m m1 (CrProgress cr') E) by discriminate.
+      injection H as <- <-. rewrite upd_ext. reflexivity.
+    + rewrite (cr_step_nostuck cr x m m1 (CrDone chars) E) by discriminate.
+      rewrite process_char_ref_ext. destruct (process_char_refF chars m1) as [m2 bad]. cbn [fst snd].
+      injection H as <- <-. rewrite upd_ext. reflexivity.
+  - apply exec_nosusp; auto.
+Qed.
+
+Theorem step_susp x (m m' : M) :
+  step_ok m -> stepF m = (m', SSuspend) -> x <> [] -> stepF (ext x m) = stepF (ext x m').
+Proof.
+  intros Hok H Hx. unfold step in H.
+  destruct (cref (mc m)) as [cr|] eqn:Ec.
+  - destruct (cr_stepF cr m) as [res m1] eqn:E.
+    destruct res as [|cr'|chars].
+    + injection H as <-. apply cr_step_stuck in E. subst m1. reflexivity.
+    + discriminate.
+    + destruct (process_char_refF chars m1) as [m2 bad]. destruct bad; discriminate.
+  - unfold step. rewrite !ext_mc, Ec.
+    assert (Em : cref (mc m') = None /\ st (mc m') = st (mc m)).
+    { (* a suspending arm has executed no terminator: state and cref are those of m; we only need them to
+         re-enter the same arm, which follows from exec_susp's own statement once we know the arm *)
+      clear Hx. revert H. generalize (Hshape (st (mc m))) (Hnoeof (st (mc m))) (Hok Ec).
+      generalize (t_step tb (st (mc m))). intros b Hs He Hrc H.
+      destruct b as [rk k|set sm krun kchar|p e y nb|k y nb|k rr|t]; cbn [shape] in Hs; cbn [no_eof] in He; cbn [exec] in H.
+      - destruct rk.
+        + destruct (get_charF m) as [[c'|] n'] eqn:E.
+          * exfalso. apply (exec_plain_nosusp k Hs He c' [] n'). rewrite H. reflexivity.
+          * injection H as <-. apply get_char_none in E. destruct E as [_ _ ->|_ _ _ ->]; [auto|].
+            destruct m; auto.
+        + apply andb_prop in Hs. destruct Hs as [Hh Hp]. destruct (peekF m) as [c'|] eqn:E.
+          * exfalso. apply (exec_ptail_nosusp k Hp He c' [] m). rewrite H. reflexivity.
+          * injection H as <-. auto.
+      - apply andb_prop in Hs. destruct Hs as [H1 H2]. apply andb_prop in He. destruct He as [E1 E2].
+        rewrite pop_slow in H. destruct (get_charF m) as [[c'|] n'] eqn:E.
+        + exfalso. apply (exec_plain_nosusp kchar H2 E2 c' [] n'). rewrite H. reflexivity.
+        + injection H as <-. apply get_char_none in E. destruct E as [_ _ ->|_ _ _ ->]; [auto|]. destruct m; auto.
+      - apply andb_prop in Hs. destruct Hs as [Hy Hn]. apply andb_prop in He. destruct He as [Ey En].
+        destruct (eatF p e m) as [[[|]|] m1] eqn:E.
+        + exfalso. apply (exec_plain_nosusp y Hy Ey 0 [] m1). rewrite H. reflexivity.
+        + destruct (eat_false_settled p e m m1 E) as [Hst _].
+          assert (Em : m' = stash m1) by (eapply chain_susp; eassumption). subst m'.
+          rewrite eat_unfold in E. 
+          assert (G : forall m0, cref (mc m0) = None /\ st (mc m0) = st (mc m) -> eat_bodyF p e m0 = (Some false, m1) ->
+                      cref (mc (stash m1)) = None /\ st (mc (stash m1)) = st (mc m)).
+          { intros m0 [G1 G2] H0. pose proof (eat_body_cases p e m0) as C. rewrite H0 in C. inversion C; subst.
+            destruct m0; cbn in *. auto. }
+          destruct (ignore_lf (mc m)).
+          * destruct (peekF m) as [c'|]; [|discriminate]. apply (G (skip_lf m c')); [|exact E].
+            unfold skip_lf. destruct (c' =? LF); [|destruct m; auto].
+            destruct (f_html fl) eqn:Hh.
+            -- unfold discard_char. rewrite Hh. destruct m as [cf q o k]; cbn in *.
+               destruct (reconsume cf); [auto|]. destruct q; auto.
+            -- destruct m as [cf q o k]; cbn in *. destruct q; auto.
+          * apply (G m); auto.
+        + injection H as <-. rewrite eat_unfold in E.
+          assert (G : forall m0, cref (mc m0) = None /\ st (mc m0) = st (mc m) -> eat_bodyF p e m0 = (None, m1) ->
+                      cref (mc m1) = None /\ st (mc m1) = st (mc m)).
+          { intros m0 [G1 G2] H0. apply eat_body_none in H0. subst m1. destruct m0; cbn in *. auto. }
+          destruct (ignore_lf (mc m)).
+          * destruct (peekF m) as [c'|]; [|injection E as <-; auto]. apply (G (skip_lf m c')); [|exact E].
+            unfold skip_lf. destruct (c' =? LF); [|destruct m; auto].
+            destruct (f_html fl) eqn:Hh.
+            -- unfold discard_char. rewrite Hh. destruct m as [cf q o k]; cbn in *.
+               destruct (reconsume cf); [auto|]. destruct q; auto.
+            -- destruct m as [cf q o k]; cbn in *. destruct q; auto.
+          * apply (G m); auto.
+      - exfalso. apply (exec_plain_nosusp (BIf k y nb) Hs He 0 [] m). cbn [exec]. rewrite H. reflexivity.
+      - exfalso. apply (exec_plain_nosusp (BCmd k rr) Hs He 0 [] m). cbn [exec]. rewrite H. reflexivity.
+      - exfalso. apply (exec_plain_nosusp (BEnd t) Hs He 0 [] m). cbn [exec]. rewrite H. reflexivity. }
+    destruct Em as [Em1 Em2]. rewrite Em1, Em2.
+    apply exec_susp; auto.
+Qed.
+(* ---------------------------------------------------------------- runs *)
+(* run the state machine to its first non-Continue result (Tokenizer::run), every machine on the way satisfying
+   [step_ok]; relational, so no fuel *)
+Inductive oruns : M -> M -> sres -> Prop :=
+| runs_stop m m' r : step_ok m -> stepF m = (m', r) -> r <> SContinue -> oruns m m' r
+| runs_step m m1 m' r : step_ok m -> stepF m = (m1, SContinue) -> oruns m1 m' r -> oruns m m' r.
+
+Lemma oruns_det m m1 r1 : oruns m m1 r1 -> forall m2 r2, oruns m m2 r2 -> m1 = m2 /\ r1 = r2.
+Proof.
+  induction 1 as [m m' r Hok H Hr|m ma m' r Hok H Hrun IH]; intros m2 r2 H2;
+    inversion H2 as [? ? ? ? H1 Hr1|? ? ? ? ? H1 Hrun1]; subst; rewrite H in H1.
+  - inversion H1; auto.
+  - inversion H1; subst. exfalso. apply Hr. reflexivity.
+  - inversion H1; subst. exfalso. apply Hr1. reflexivity.
+  - inversion H1; subst. apply IH. assumption.
+Qed.
+
+(* a run that ends in a result other than Suspend is unaffected by input appended behind the queue *)
+Lemma oruns_ext x m m' r : oruns m m' r -> r <> SSuspend -> oruns (ext x m) (ext x m') r.
+Proof.
+  induction 1 as [m m' r Hok H Hr|m ma m' r Hok H Hrun IH]; intros Hs.
+  - apply runs_stop; [apply step_ok_ext; exact Hok| |exact Hr]. apply step_nosusp; assumption.
+  - eapply runs_step; [apply step_ok_ext; exact Hok| |apply IH; exact Hs].
+    apply step_nosusp; [assumption|assumption|discriminate].
+Qed.
+
+(* the suspend/resume theorem: running on, once more input has arrived, from the machine a suspended run left
+   behind is the same as running with that input present from the start *)
+Theorem oruns_resume x m m1 : oruns m m1 SSuspend -> x <> [] ->
+  forall m2 r, oruns (ext x m1) m2 r -> oruns (ext x m) m2 r.
+Proof.
+  remember SSuspend as rs eqn:Ers. induction 1 as [m m' r Hok H Hr|m ma m' r Hok H Hrun IH]; intros Hx m2 r2 H2; subst.
+  - pose proof (step_susp x m m' Hok H Hx) as E.
+    inversion H2; subst.
+    + apply runs_stop; [apply step_ok_ext; exact Hok| |assumption]. rewrite E. assumption.
+    + eapply runs_step; [apply step_ok_ext; exact Hok| |eassumption]. rewrite E. assumption.
+  - eapply runs_step; [apply step_ok_ext; exact Hok| |apply IH; auto].
+    apply step_nosusp; [assumption|assumption|discriminate].
+Qed.
+
+(* ---------------------------------------------------------------- feeding (the driver loop around feed()) *)
+(* feed() until it reports Done; a Script result pushes [inj] to the front of the queue (document.write) and feeds
+   again, an EncodingIndicator just feeds again.  discard_bom is handled before (see Chunk_bom below). *)
+Inductive feeds (inj : list N) : M -> M -> Prop :=
+| fd_empty m : mq m = [] -> feeds inj m m
+| fd_done m m' : mq m <> [] -> oruns m m' SSuspend -> feeds inj m m'
+| fd_script m m1 m' : mq m <> [] -> oruns m m1 SScript -> feeds inj (m1 <| mq ::= app inj |>) m' -> feeds inj m m'
+| fd_enc m m1 m' : mq m <> [] -> oruns m m1 SEncoding -> feeds inj m1 m' -> feeds inj m m'.
+
+Lemma ext_nonempty x (m : M) : x <> [] -> mq (ext x m) <> [].
+Proof. intros Hx. rewrite ext_mq. destruct (mq m); [exact Hx|discriminate]. Qed.
+Lemma ext_nonempty_l x (m : M) : mq m <> [] -> mq (ext x m) <> [].
+Proof. intros H. rewrite ext_mq. destruct (mq m); [contradiction|discriminate]. Qed.
+Lemma inj_ext inj x (m : M) : (ext x m) <| mq ::= app inj |> = ext x (m <| mq ::= app inj |>).
+Proof. destruct m; unfold ext, set; cbn. rewrite app_assoc. reflexivity. Qed.
+
+Theorem feeds_split inj x m m1 : feeds inj m m1 -> x <> [] ->
+  forall m2, feeds inj (ext x m1) m2 -> feeds inj (ext x m) m2.
+Proof.
+  induction 1 as [m Hq|m m' Hq Hr|m ma m' Hq Hr Hf IH|m ma m' Hq Hr Hf IH]; intros Hx m2 H2.
+  - exact H2.
+  - inversion H2; subst.
+    + exfalso. apply (ext_nonempty x m' Hx). assumption.
+    + apply fd_done; [apply ext_nonempty; exact Hx|]. eapply oruns_resume; eassumption.
+    + eapply fd_script; [apply ext_nonempty; exact Hx| |eassumption]. eapply oruns_resume; eassumption.
+    + eapply fd_enc; [apply ext_nonempty; exact Hx| |eassumption]. eapply oruns_resume; eassumption.
+  - eapply fd_script; [apply ext_nonempty_l; exact Hq|apply oruns_ext; [exact Hr|discriminate]|].
+    rewrite inj_ext. apply IH; assumption.
+  - eapply fd_enc; [apply ext_nonempty_l; exact Hq|apply oruns_ext; [exact Hr|discriminate]|].
+    apply IH; assumption.
+Qed.
+
+Lemma feeds_det inj m m1 : feeds inj m m1 -> forall m2, feeds inj m m2 -> m1 = m2.
+Proof.
+  induction 1 as [m Hq|m m' Hq Hr|m ma m' Hq Hr Hf IH|m ma m' Hq Hr Hf IH]; intros m2 H2; inversion H2; subst;
+    try contradiction; try reflexivity;
+    match goal with
+    | A : oruns ?m _ _, B : oruns ?m _ _ |- _ => destruct (oruns_det _ _ _ A _ _ B) as [E1 E2]; try discriminate; subst
+    end; auto.
+Qed.
+
+(* feeding a list of chunks: push_back each chunk, feed until Done *)
+Inductive feed_chunks (inj : list N) : M -> list (list N) -> M -> Prop :=
+| fc_nil m : feed_chunks inj m [] m
+| fc_cons m ch rest m1 m2 : feeds inj (ext ch m) m1 -> feed_chunks inj m1 rest m2 -> feed_chunks inj m (ch :: rest) m2.
+
+Lemma feeds_empty_chunk inj m m1 : mq m = [] -> feeds inj (ext [] m) m1 -> m1 = m.
+Proof.
+  rewrite ext_nil. intros Hq H. inversion H; subst; try contradiction. reflexivity.
+Qed.
+
+(* C03/C15, reference semantics: merging two adjacent chunks does not change the machine reached (token stream with
+   parse errors and line numbers, configuration, unread input) *)
+Theorem feed_chunks_merge inj m c1' c2' rest m2 : c2' <> [] ->
+  feed_chunks inj m (c1' :: c2' :: rest) m2 -> feed_chunks inj m ((c1' ++ c2') :: rest) m2.
+Proof.
+  intros Hc2 H. inversion H as [|? ? ? ma ? Hf1 Hrest]; subst.
+  inversion Hrest as [|? ? ? mb ? Hf2 Hrest2]; subst.
+  eapply fc_cons; [|exact Hrest2].
+  rewrite <- ext_ext. eapply feeds_split; eassumption.
+Qed.
+(* ---------------------------------------------------------------- the fuelled executable loop is the relation *)
+Notation runF := (@run S (list N) [] fq_next fq_peek (@app N) fid fq_run1 fl ex tb simd ent c1 sk false).
+
+Lemma run_is_oruns : (forall m : M, step_ok m) -> forall fuel (m m' : M) r,
+  runF fuel m = (m', r) -> oruns m m' r \/ r = SPanic 98.
+Proof.
+  intros Hok. induction fuel as [|f IH]; intros m m' r H; cbn [run] in H.
+  - injection H as _ <-. right. reflexivity.
+  - destruct (stepF m) as [m1 r1] eqn:E.
+    destruct r1; try (injection H as <- <-; left; apply runs_stop; [apply Hok|exact E|discriminate]).
+    destruct (IH m1 m' r H) as [Hr|Hr]; [left|right; exact Hr].
+    eapply runs_step; [apply Hok|exact E|exact Hr].
+Qed.
+
+(* any two ways of cutting the same input into non-empty chunks reach the same machine *)
+Fixpoint all_nonempty (cs : list (list N)) : Prop :=
+  match cs with [] => True | c :: r => c <> [] /\ all_nonempty r end.
+
+Lemma feed_chunks_concat_aux inj rest : forall c m m2, c <> [] -> all_nonempty rest ->
+  feed_chunks inj m (c :: rest) m2 -> feed_chunks inj m [c ++ concat rest] m2.
+Proof.
+  induction rest as [|c2 rest IH]; intros c m m2 Hc Hne H.
+  - cbn. rewrite app_nil_r. exact H.
+  - destruct Hne as [Hc2 Hne]. apply feed_chunks_merge in H; [|exact Hc2].
+    cbn [concat]. rewrite app_assoc. apply IH; [|exact Hne|exact H].
+    destruct c; [contradiction|discriminate].
+Qed.
+
+Lemma feed_chunks_concat inj cs : forall m m2, all_nonempty cs -> cs <> [] ->
+  feed_chunks inj m cs m2 -> feed_chunks inj m [concat cs] m2.
+Proof.
+  intros m m2 Hne Hnil H. destruct cs as [|c rest]; [contradiction|].
+  destruct Hne as [Hc Hne]. cbn [concat]. apply feed_chunks_concat_aux; assumption.
+Qed.
+
+Lemma feed_chunks_det inj cs : forall m m1 m2, feed_chunks inj m cs m1 -> feed_chunks inj m cs m2 -> m1 = m2.
+Proof.
+  induction cs as [|c cs IH]; intros m m1 m2 H1 H2; inversion H1; inversion H2; subst; [reflexivity|].
+  match goal with A : feeds inj (ext c m) ?a, B : feeds inj (ext c m) ?b |- _ =>
+    assert (a = b) by (eapply feeds_det; eassumption); subst end.
+  eapply IH; eassumption.
+Qed.
+
+Theorem chunking_independent inj cs1 cs2 m m1 m2 :
+  all_nonempty cs1 -> all_nonempty cs2 -> cs1 <> [] -> cs2 <> [] -> concat cs1 = concat cs2 ->
+  feed_chunks inj m cs1 m1 -> feed_chunks inj m cs2 m2 -> m1 = m2.
+Proof.
+  intros N1 N2 E1 E2 Hc H1 H2.
+  apply feed_chunks_concat in H1; auto. apply feed_chunks_concat in H2; auto.
+  rewrite Hc in H1. eapply feed_chunks_det; eassumption.
 Qed.
 End Chunk.
